@@ -195,7 +195,7 @@ pub fn reversals(cfg: &Cfg, m: &Menu) -> Vec<Act> {
     let mut v = vec![];
     for slot in 0..m.ask_slots {
         let id = ASK_IDS[slot];
-        let owner = r.get(if slot == 0 { "seller1" } else { "seller2" });
+        let owner = r.get(if slot % 2 == 0 { "seller1" } else { "seller2" });
         v.push(Act::new(exec, vec![], Req::RejectAsk { id: id.into(), size: None }));
         for s in &sizes {
             v.push(Act::new(exec, vec![], Req::RejectAsk { id: id.into(), size: Some(*s) }));
@@ -208,7 +208,7 @@ pub fn reversals(cfg: &Cfg, m: &Menu) -> Vec<Act> {
     }
     for slot in 0..m.bid_slots {
         let id = BID_IDS[slot];
-        let owner = r.get(if slot == 0 { "buyer1" } else { "buyer2" });
+        let owner = r.get(if slot % 2 == 0 { "buyer1" } else { "buyer2" });
         v.push(Act::new(exec, vec![], Req::RejectBid { id: id.into(), size: None }));
         for s in &sizes {
             v.push(Act::new(exec, vec![], Req::RejectBid { id: id.into(), size: Some(*s) }));
@@ -543,7 +543,7 @@ pub fn creates(cfg: &Cfg, m: &Menu, k: usize) -> Vec<Act> {
                 // one baseline size per (slot, base, price) keeps the product in check
                 let s = m.sizes[0];
                 let d0 = AskDraft {
-                    sender: r.get(if slot == 0 { "seller1" } else { "seller2" }).to_string(),
+                    sender: r.get(if slot % 2 == 0 { "seller1" } else { "seller2" }).to_string(),
                     id: ASK_IDS[slot].into(),
                     base: base.to_string(),
                     quote: cfg.quotes[0].clone(),
@@ -577,7 +577,7 @@ pub fn creates(cfg: &Cfg, m: &Menu, k: usize) -> Vec<Act> {
         for p in &m.prices {
             let s = m.sizes[0];
             let d0 = BidDraft {
-                sender: r.get(if slot == 0 { "buyer1" } else { "buyer2" }).to_string(),
+                sender: r.get(if slot % 2 == 0 { "buyer1" } else { "buyer2" }).to_string(),
                 id: BID_IDS[slot].into(),
                 base: cfg.base.clone(),
                 quote: cfg.quotes[0].clone(),
@@ -621,7 +621,7 @@ pub fn fee_creates(cfg: &Cfg, m: &Menu) -> Vec<Act> {
             for s in &m.sizes {
                 for fee in [FeeMode::Exact, FeeMode::Absent, FeeMode::Plus1, FeeMode::Minus1, FeeMode::WrongDenom, FeeMode::ExplicitValue] {
                     let d = BidDraft {
-                        sender: r.get(if slot == 0 { "buyer1" } else { "buyer2" }).to_string(),
+                        sender: r.get(if slot % 2 == 0 { "buyer1" } else { "buyer2" }).to_string(),
                         id: BID_IDS[slot].into(),
                         base: cfg.base.clone(),
                         quote: cfg.quotes[0].clone(),
